@@ -88,7 +88,14 @@ func (b *Blob) writer(format string) (keyset.Writer, *bytes.Buffer) {
 		buf := &bytes.Buffer{}
 		return keyset.NewJSONWriter(buf), buf
 	}
+	// The MemReaderWriter has been used before (another keyset was stored in the same place, in clear and encrypted
+	// form): what is read back after the next write must be what THAT write stored.
 	b.Mem = &keyset.MemReaderWriter{}
+	decoy := &tinkpb.Keyset{PrimaryKeyId: 0x7E57, Key: []*tinkpb.Keyset_Key{{KeyId: 0x7E57, Status: tinkpb.KeyStatusType_ENABLED, OutputPrefixType: tinkpb.OutputPrefixType_TINK,
+		KeyData: &tinkpb.KeyData{TypeUrl: "type.googleapis.com/verif.keycat.Decoy", Value: []byte{1, 2, 3}, KeyMaterialType: tinkpb.KeyData_SYMMETRIC}}}}
+	b.Mem.Write(decoy)
+	b.Mem.WriteEncrypted(&tinkpb.EncryptedKeyset{EncryptedKeyset: []byte("decoy"), KeysetInfo: &tinkpb.KeysetInfo{PrimaryKeyId: 0x7E57,
+		KeyInfo: []*tinkpb.KeysetInfo_KeyInfo{{TypeUrl: "type.googleapis.com/verif.keycat.Decoy", KeyId: 0x7E57, Status: tinkpb.KeyStatusType_ENABLED, OutputPrefixType: tinkpb.OutputPrefixType_TINK}}}})
 	return b.Mem, nil
 }
 
